@@ -291,7 +291,7 @@ def gen_source(rng, size=4096, tight=False):
                 refs += 1
             else:
                 addr = rng.choice([0, 1, min(4095, size - 1), rng.randrange(min(4096, size))])
-                t = rng.choice([str(addr), "0x%x" % addr, "0x%03X" % addr, "0x%04x" % addr])
+                t = rng.choice([str(addr), "0x%x" % addr, "0x%03X" % addr, "0x%04x" % addr, "%04d" % addr, "0%d" % addr])
             words.append((MNEMONICS.index(m) << 12) | (addr % 4096))
             lines.append(rng.choice(["", " ", "\t", "    "]) + pre + case_of(m) + " " + t + rng.choice(["", " # c", "   ", " # element #2", " ## x", " # a # b #", ' # "q"', " # it's"]))
         else:
@@ -301,7 +301,7 @@ def gen_source(rng, size=4096, tight=False):
     for l in labels:
         if pos[l] == n:
             lines.append(l + ":")
-    dl = [rng.choice(["", "    "]) + "%s: .word " % nm + rng.choice([", ", ",", " , "]).join(rng.choice([str(v), hex(v)]) for v in vals) + rng.choice(["", "", " # v", " # v #2"]) for nm, vals, a in variables]
+    dl = [rng.choice(["", "    "]) + "%s: .word " % nm + rng.choice([", ", ",", " , "]).join(rng.choice([str(v), hex(v), "%06d" % v]) for v in vals) + rng.choice(["", "", " # v", " # v #2"]) for nm, vals, a in variables]
     if dl:
         text = "\n".join([".data"] + dl + [".text"] + lines) if rng.random() < 0.5 else "\n".join(([".text"] if rng.random() < 0.5 else []) + lines + [".data"] + dl)
     else:
@@ -343,6 +343,13 @@ def run_asm_case(case, res):
             # the editor assembles the same source again and again into the same simulation (same labels, same
             # variable names); every assembly must place the same image
             res.count("sources_assembled_twice_on_one_simulation")
+            # (memory scribbled over in between, no cycle executed: the second assembly places the image again)
+            from fixedint import UInt16 as _U16
+
+            top_ = (case.get("size") or 4096) - 1
+            for a_ in (0, 1, top_, top_ - 1):
+                if 0 <= a_ <= top_:
+                    s.state.memory.write_halfword(a_, _U16(0x5A5A))
             s.load_program(case["text"])
     except Exception as e:
         res.violation("C19", "load-failed", "well-formed TOY source failed to load (memory size %s%s): %r" % (case.get("size", 4096), ", second assembly on the same simulation" if case.get("again") else "", e), case)
